@@ -214,25 +214,36 @@ func observe(m *cors.Middleware, err error, probes []reqT) SX {
 	return L(KV("err", Bool(err != nil)), KV("debug", Bool(cors.VerifDebug(m))), KV("config", cfg), KV("outs", outs))
 }
 
+// genInvalidConfig: a configuration with at least one defect planted BY CONSTRUCTION (never decided by asking the
+// implementation, which may be the thing that is broken); whether a configuration is invalid is judged on the
+// model side by the specification (violations c <> []).
 func genInvalidConfig(r R) cors.Config {
-	for {
-		c := genAnyConfig(r)
-		if _, err := cors.NewMiddleware(cloneCfg(c)); err != nil {
-			return c
-		}
+	c := genValidConfig(r)
+	switch r.Intn(6) {
+	case 0:
+		c.Origins = append(c.Origins, r.pick(originsDefect[:30]))
+	case 1:
+		c.Methods = append(c.Methods, r.pick(methodsDefect[:5]))
+	case 2:
+		c.RequestHeaders = append(c.RequestHeaders, r.pick(reqHdrsDefect[:12]))
+	case 3:
+		c.ResponseHeaders = append(c.ResponseHeaders, r.pick(resHdrsDefect[:5]))
+	case 4:
+		c.MaxAgeInSeconds = maxAgesDefect[r.Intn(len(maxAgesDefect))]
+	default:
+		c.PreflightSuccessStatus = statusesDefect[r.Intn(len(statusesDefect))]
 	}
+	return c
 }
 
 // minimalInvalidations returns copies of a valid configuration in which exactly one setting is made invalid
 // (the rest, in particular the origin patterns, stays identical to the current state).
 func minimalInvalidations(a cors.Config) []cors.Config {
 	var out []cors.Config
-	add := func(f func(c *cors.Config)) {
+	add := func(f func(c *cors.Config)) { // kept whether or not it turns out invalid: the specification decides
 		c := cloneCfg(a)
 		f(&c)
-		if _, err := cors.NewMiddleware(cloneCfg(c)); err != nil {
-			out = append(out, c)
-		}
+		out = append(out, c)
 	}
 	add(func(c *cors.Config) { c.DangerouslyTolerateInsecureOrigins = false })
 	add(func(c *cors.Config) { c.DangerouslyTolerateSubdomainsOfPublicSuffixes = false })
